@@ -487,7 +487,7 @@ def run(chk):
                     chk.floors.pop(r)
         return
     # statement-level shape rules: advisory read-backs once the evaluation C10.L decided positively (they explain a deviation otherwise)
-    run_rule = chk.advisory if layout_ok else chk.guard
+    run_rule = chk.readback(layout_ok)
     run_rule('C10.S', check_split, chk, pm)
     run_rule('C10.S', check_no_splitlines, chk, pm)
     run_rule('C10.W', check_whitespace, chk, pm)
